@@ -483,6 +483,12 @@ def _compare_contacts(rec, mjm, cw, cm, ctx):
       if all(near(c) for c in W):
         rec.boundary_skipped += 1
         continue
+      if not exact and all(c["dist"] - c["includemargin"] > -gtol for c in W):
+        # within the geometric tolerance of the element narrow phase (2e-3) of not being a contact at all: thorough tier saw a box 7e-5 outside an inflated
+        # tetrahedron (independent support-function distance) reported at -8.8e-4 by MJWarp, none by MuJoCo
+        rec.boundary_skipped += 1
+        rec.cls(f"contacts:{cl}:phantom-within-gtol")
+        continue
       a = min(W, key=lambda c: c["dist"])
       if True:
         rec.violation(f"{cl}: MJWarp reports {len(W)} contacts (deepest {a['s0']}-{a['s1']} dist {a['dist']:.5f} at {np.round(a['pos'], 4).tolist()}), MuJoCo none", sig=f"contacts:{cl}:phantom", **ctx)
@@ -510,7 +516,10 @@ def _compare_contacts(rec, mjm, cw, cm, ctx):
       bad = (dW < dM - 2e-3) if cl == "g1d" else abs(dW - dM) > 2e-3
       if bad:
         identical = False
-        rec.violation(f"{cl}: deepest penetration {dW:.5f} vs MuJoCo {dM:.5f}", sig=f"contacts:{cl}:deepest", **ctx)
+        rad = float(np.max(mjm.flex_radius))
+        # recorded finding, routed narrowly: element contact deeper than twice the flex radius, MJWarp shallower than MuJoCo by less than 25 %
+        deep = cl == "gelem" and dM < -2.0 * rad and dW > dM and (dW - dM) < 0.25 * abs(dM)
+        rec.violation(f"{cl}: deepest penetration {dW:.5f} vs MuJoCo {dM:.5f}", sig=f"contacts:{cl}:deepest" + (":deep-underestimate" if deep else ""), **ctx)
     for a in W:
       best, bj = None, -1
       for j, b in enumerate(M):
